@@ -14,6 +14,10 @@ package corr
 //	         bubble's clock, which drives the default ticker (and is the value its channel delivers): arrival
 //	         times and the report time must both be the configured clock's; the model's clock starts at
 //	         2000-01-01 + skew (kept inside NTP era 0).
+//	         The ambient of a case (first op `amb … shapes=…`, ambient_test.go) gives the RTP packets wire shapes
+//	         with the P bit: padding-only (the count in the last octet covers the whole payload), count 1,
+//	         count = payload-1.  The unchanged interceptor parses the header only and records every packet it
+//	         is handed, so the model has nothing to learn about shapes.
 //	         observables: `read ok|blocked` per rtp, the reports reaching the RTCP writer per adv,
 //	         `closed released=<n>` (Reads that were blocked in the hand-off and returned on Close).
 
@@ -614,7 +618,24 @@ var c08IntClasses = []string{
 	"longidle",
 }
 
+// c08GenInt: the classes of c08GenIntPlain, a third of them with wire shapes on the RTP packets, and the class
+// `padding`: packet-carrying classes, always shaped.
 func c08GenInt(r *Rng, tier string, idx int) Case {
+	n := len(c08IntClasses) + 1
+	if idx%n == n-1 {
+		cs := c08GenIntPlain(r, tier, r.Pick(0, 1, 2, 7, 8, 9)) // steady, loss, multi, oldgap, dup, wrap
+		cs.Class = "padding"
+		cs.Ops = append([]string{ambWith(ambOp("", "", false, false, false, false), ambShapes(r))}, cs.Ops...)
+		return cs
+	}
+	cs := c08GenIntPlain(r, tier, idx-idx/n)
+	if r.Chance(1, 3) {
+		cs.Ops = append([]string{ambWith(ambOp("", "", false, false, false, false), ambShapes(r))}, cs.Ops...)
+	}
+	return cs
+}
+
+func c08GenIntPlain(r *Rng, tier string, idx int) Case {
 	cl := c08IntClasses[idx%len(c08IntClasses)]
 	interval := r.Pick(100, 100, 50, 20, 250, 1000)
 	if cl == "oldgap" {
@@ -879,7 +900,7 @@ func c08RunInt(t *testing.T, ops []string, o *Out) {
 					o.P("err:marshal")
 					continue
 				}
-				pending = raw
+				pending = o.ShapeRaw(raw) // the case's wire shapes (P bit: padding-only, count 1, count = payload-1)
 				done := make(chan struct{})
 				var n int
 				var rerr error
@@ -959,9 +980,9 @@ func init() {
 	register("ccfbint", &Comp{
 		N: func(tier string) int {
 			if tier == "thorough" {
-				return 20000
+				return 22000
 			}
-			return 400
+			return 440
 		},
 		Gen: c08GenInt,
 		Run: c08RunInt,
